@@ -305,7 +305,7 @@ fn add_path_components(builder: &TokenStream, endpoint: &Endpoint) -> TokenStrea
                     &percent_encoding::percent_encode(lit.as_bytes(), COMPONENT).to_string(),
                 );
             }
-            PathComponent::Parameter(param) => {
+            PathComponent::Parameter { name: param, .. } => {
                 if !literal_buf.is_empty() {
                     path_writes.push(quote! {
                         #builder.push_literal(#literal_buf);
@@ -764,7 +764,7 @@ fn validate_args(
             .collect::<HashMap<_, _>>();
 
         for component in path_components {
-            let PathComponent::Parameter(param) = component else {
+            let PathComponent::Parameter { name: param, .. } = component else {
                 continue;
             };
 
